@@ -1,0 +1,37 @@
+""" Optional tracing hooks for external verification tooling.
+
+    The hooks do nothing unless the environment variable NPTDMS_VERIF is set to 1
+    when this module is imported. Records are passed to an in-process sink if one
+    is installed, else appended as JSON lines to the file named by NPTDMS_VERIF_TRACE.
+"""
+import json
+import os
+
+
+_enabled = os.environ.get("NPTDMS_VERIF") == "1"
+_sink = None
+
+
+def enabled():
+    return _enabled
+
+
+def set_sink(sink):
+    """ Install a callable receiving each trace record (a dict), or None to remove it
+    """
+    global _sink
+    _sink = sink
+
+
+def trace(event, **fields):
+    if not _enabled:
+        return
+    record = dict(fields)
+    record["event"] = event
+    if _sink is not None:
+        _sink(record)
+        return
+    path = os.environ.get("NPTDMS_VERIF_TRACE")
+    if path:
+        with open(path, "a") as trace_file:
+            trace_file.write(json.dumps(record) + "\n")
